@@ -83,14 +83,38 @@ def canon(t):
     return list(t.colnames), cols, meta
 
 
-def run_compute(cfg, rng_seed, clock_s, world=None, psize=None, **kw):
+class _AsciiOut:
+    """A terminal that can only show ASCII (LC_ALL=C, PYTHONIOENCODING=ascii, a legacy code page)."""
+
+    encoding = "ascii"
+    errors = "strict"
+
+    def write(self, s):
+        s.encode("ascii")  # raises UnicodeEncodeError like a real ascii stream
+        return len(s)
+
+    def flush(self):
+        pass
+
+    def isatty(self):
+        return False
+
+
+def run_compute(cfg, rng_seed, clock_s, world=None, psize=None, stdout=None, tz=None, **kw):
     """One compute() under the seams.  Returns ('ok', table, clock_reads) or ('exc', exception, reads)."""
     import dask
 
     compute = sys.modules["nuspacesim.compute"].compute
+    import os
+    import time as _time
+
     np.random.seed(rng_seed)
     out = sys.stdout
-    sys.stdout = _Null()
+    sys.stdout = stdout if stdout is not None else _Null()
+    saved_tz = os.environ.get("TZ")
+    if tz is not None:
+        os.environ["TZ"] = tz
+        _time.tzset()
     try:
         with seams.simulated_clock(lambda: clock_s) as clk:
             try:
@@ -107,6 +131,12 @@ def run_compute(cfg, rng_seed, clock_s, world=None, psize=None, **kw):
             return "ok", t, clk.reads
     finally:
         sys.stdout = out
+        if tz is not None:
+            if saved_tz is None:
+                os.environ.pop("TZ", None)
+            else:
+                os.environ["TZ"] = saved_tz
+            _time.tzset()
 
 
 def _diff(a, b, ignore_keys=()):
@@ -295,6 +325,19 @@ def scn_full(ctx):
             d = _diff(c0, canon(Rp))
             if d:
                 raise Violation("c14.presentation_changes_results", f"with {kw} the results differ from the plain run with the same seed: {d}", sig="compute:" + ("verbose" if po == 4 else "plot"))
+
+    # ---- the environment of the process must not change the table: terminal encoding, time zone ----
+    envd = ch.draw(6, "environment")
+    if envd >= 4:
+        ekw = {"stdout": _AsciiOut()} if envd == 4 else {"tz": ("JST-9", "EST5EDT", "Australia/Lord_Howe", "UTC")[ch.draw(4, "tz")]}
+        ste, Re, _ = run_compute(cfg, s, T0, **ekw)
+        ctx.log(f"R_environment {('ascii-stdout' if envd == 4 else ekw)} -> {ste}")
+        ctx.probes["run_with_ascii_stdout" if envd == 4 else "run_in_other_time_zone"] += 1
+        if ste == "exc":
+            raise Violation("c14.environment_dependent", f"with {'an ASCII-only stdout' if envd == 4 else 'TZ=' + ekw['tz']} the run raised {type(Re).__name__}: {str(Re)[:160]}; in the default environment it returns", sig="compute:" + ("stdout" if envd == 4 else "tz"))
+        d = _diff(c0, canon(Re))
+        if d:
+            raise Violation("c14.environment_dependent", f"with {'an ASCII-only stdout' if envd == 4 else 'TZ=' + ekw['tz']} the results differ from the run in the default environment with the same seed: {d}", sig="compute:" + ("stdout" if envd == 4 else "tz"))
 
     # ---- (c) channel isolation ----------------------------------------------------------------
     if opt and rad and rows > 0:
